@@ -159,10 +159,8 @@ func (nd *node) dirNames() []string {
 func (nd *node) remove() {
 	nd.children = nil
 
+	// The data of the file is kept : it remains available to the handles still opened on the file.
 	nd.nlink--
-	if nd.nlink == 0 {
-		nd.data = nil
-	}
 }
 
 // setMode sets the permissions of the file node.
